@@ -192,29 +192,19 @@ mut("c13_empty_selection_means_all", "C13", [
      '''                if want_tracks and instrument_difficulty_pair not in want_tracks:'''),
 ], "an empty selection (list or tuple)")
 
-mut("c13_track_built_before_filter", "C13", [
+mut("c13_selection_matches_difficulty_only", "C13", [
     ("chartparse/chart.py",
-     '''                if want_tracks is not None and instrument_difficulty_pair not in want_tracks:
-                    continue
-                instrument, difficulty = instrument_difficulty_pair
-                track = InstrumentTrack.from_chart_lines(
-                    instrument,
-                    difficulty,
-                    data_section_lines,
-                    sync_track.bpm_events,
-                )
-                instrument_tracks[instrument][difficulty] = track''',
-     '''                instrument, difficulty = instrument_difficulty_pair
-                track = InstrumentTrack.from_chart_lines(
-                    instrument,
-                    difficulty,
-                    data_section_lines,
-                    sync_track.bpm_events,
-                )
-                if want_tracks is not None and instrument_difficulty_pair not in want_tracks:
-                    continue
-                instrument_tracks[instrument][difficulty] = track'''),
-], "an invalid instrument section that is not selected")
+     '''                if want_tracks is not None and instrument_difficulty_pair not in want_tracks:''',
+     '''                if want_tracks is not None and instrument_difficulty_pair[1] not in [
+                    d for _, d in want_tracks
+                ]:'''),
+], "a file holding two instruments at the selected difficulty: the unselected one is returned too")
+
+mut("c13_tuple_selection_ignored", "C13", [
+    ("chartparse/chart.py",
+     '''                if want_tracks is not None and instrument_difficulty_pair not in want_tracks:''',
+     '''                if isinstance(want_tracks, list) and instrument_difficulty_pair not in want_tracks:'''),
+], "a selection passed as a tuple (any Sequence is allowed) is ignored: all tracks are returned")
 
 # ---------------------------------------------------------------------------------------- C14
 mut("c14_warning_dropped", "C14", [
